@@ -208,7 +208,7 @@ def feed_row(rng, e, row, role):
         d, g, t = counts(0.05, 0.9)
         if rng.random() < 0.3:  # partial count already above what the model would predict
             d, g, t = d * 5, g * 5, t * 5
-        pev = rng.choice([1, 10, 50, max(0, e.threshold - 1), e.threshold - 0.5])
+        pev = rng.choice([1, 10, min(50, e.threshold - 1), max(0, e.threshold - 1), e.threshold - 0.5])  # always below the threshold
     elif role == "zero-percent":
         d, g, t = 0, 0, 0
         pev = 0
@@ -274,7 +274,7 @@ def client_mod():
 
 
 def run_client(e, estimands=("turnout",), alphas=(0.5,), pi_method="nonparametric", aggregates=None, params=None,
-               policy="drop", features=(), fixed_effects=None, client=None, extra=None, keep_client=False):
+               policy="drop", features=(), fixed_effects=None, client=None, extra=None, keep_client=False, reuse_feed=False):
     """returns {"tables": {name: DataFrame}} or {"raises": class name, "msg": ...}"""
     cm = client_mod()
     cl = client or cm.ModelClient()
@@ -294,7 +294,7 @@ def run_client(e, estimands=("turnout",), alphas=(0.5,), pi_method="nonparametri
     kw.update(extra or {})
     try:
         with np.errstate(all="ignore"):
-            res = cl.get_estimates(e.cur.copy(), ELECTION_ID, e.office, list(estimands), list(alphas), e.threshold,
+            res = cl.get_estimates(e.cur if reuse_feed else e.cur.copy(), ELECTION_ID, e.office, list(estimands), list(alphas), e.threshold,
                                    e.unit_type, **kw)
     except Exception as ex:  # the exception class is an observable
         out = {"raises": type(ex).__name__, "msg": str(ex)[:300]}
